@@ -13,6 +13,7 @@ import (
 
 type vgen struct {
 	r          *rand.Rand
+	ifaces     int // interface values so far
 	expansions int // named-type unfoldings so far
 	cap        int // beyond it the value is closed off as fast as possible
 }
@@ -88,7 +89,12 @@ func (g *vgen) populate(td *TD, t reflect.Type, budget int) (reflect.Value, any)
 		return v, map[string]any{"time": tm.Format(time.RFC3339Nano)}
 	case "iface":
 		var x any
-		switch g.r.Intn(5) {
+		k := g.r.Intn(5)
+		if g.ifaces == 0 && k == 4 {
+			k = 0 // the first interface value of a case is never an object (the one shape an "object" schema accepts)
+		}
+		g.ifaces++
+		switch k {
 		case 0:
 			x = "text"
 		case 1:
